@@ -239,6 +239,10 @@ def check(ix, rep):
             checked_ops[key] = state.operation_state(ix, rep, opc, interp_rebuilds=rebuilds)
             nop += 1
     rep.floor('operation classes checked', nop, 50)
+    # ---- the specification's own reset(): forwards, and keeps the configured interpreter
+    from sa.rules import units
+    nc = units.check_interpreter_ownership(ix, rep)
+    rep.floor('interpreter ownership obligations of the specification classes', nc, 4)
     # ---- (e) what reset() re-derives from must not have been altered in between -------------------------------
     if not astpure.self_test():
         raise AnalysisError('R-ASTPURE self-test: the positive example is not recognised')
